@@ -554,3 +554,58 @@ Proof.
   - destruct (is_ascii p); [|discriminate].
     destruct (decode_path_info (Percent.unquote p)) as [d|e|]; intros H; inversion H; reflexivity.
 Qed.
+
+(* ------------------------------------------------------------ the traverse entry of a route's match dictionary *)
+(* a value captured by the route pattern -- also the empty tuple of a `*traverse` whose remainder normalises to nothing
+   and the '' of a {traverse:.*} placeholder -- is never replaced by the traverse= option; the option only fills an
+   ABSENT entry, with normalised segments *)
+Theorem traverse_entry_capture_wins v parts : traverse_entry (Some v) parts = Some v.
+Proof. reflexivity. Qed.
+
+Theorem traverse_entry_spec captured parts :
+  (forall v, captured = Some v -> traverse_entry captured parts = Some v) /\
+  (captured = None -> forall ps, parts = Some ps ->
+     exists l, traverse_entry captured parts = Some (MTuple l) /\ Forall normal_seg l /\
+               (Forall normal_seg ps -> l = ps)) /\
+  (captured = None -> parts = None -> traverse_entry captured parts = None).
+Proof.
+  split; [intros v ->; reflexivity|]. split.
+  - intros -> ps ->. cbn [traverse_entry option_map]. eexists. split; [reflexivity|]. split; [apply spi_normal|].
+    intros H. rewrite <- gen_split_path_info_is_model. apply gen_split_keeps_names_abs. exact H.
+  - intros -> ->. reflexivity.
+Qed.
+
+Example traverse_entry_empty_capture :
+  traverse_entry (Some (MTuple [])) (Some [ta]) = Some (MTuple []) /\
+  traverse_entry (Some (MStr [])) (Some [ta]) = Some (MStr []) /\
+  traverse_entry None (Some [ta; [46; 46]%N; tb]) = Some (MTuple [tb]).
+Proof. vm_compute. repeat split. Qed.
+
+(* ------------------------------------------------------------ _join_path_tuple (tuple of str) *)
+Lemma quote_segment_r_default seg : quote_segment_r path_segment_safe seg = quote_path_segment seg.
+Proof. reflexivity. Qed.
+
+Lemma rmap_r_is_rmap {A B} (f g : A -> result B) l : (forall x, f x = g x) -> rmap_r f l = rmap g l.
+Proof.
+  intros H. induction l as [|x r IH]; [reflexivity|].
+  cbn [rmap_r rmap]. rewrite H, IH. reflexivity.
+Qed.
+
+Theorem gen_join_path_tuple_c02_is_model l : gen_join_path_tuple_c02 l = join_path_tuple l.
+Proof.
+  unfold gen_join_path_tuple_c02, join_path_tuple, slash_text, slash.
+  rewrite (rmap_r_is_rmap _ quote_path_segment l quote_segment_r_default).
+  destruct l as [|x r]; [reflexivity|]. cbn [is_nil].
+  destruct (rmap quote_path_segment (x :: r)) as [qs|e|]; cbn [rbind]; try reflexivity.
+  destruct (join [47%N] qs) as [|c s]; reflexivity.
+Qed.
+
+(* what traverse()/find_resource() make of a tuple path, about the regenerated function: '' first = absolute *)
+Theorem gen_join_path_tuple_c02_absolute segs p :
+  gen_join_path_tuple_c02 ([] :: segs) = Ok p -> hd_error p = Some slash.
+Proof.
+  rewrite gen_join_path_tuple_c02_is_model. unfold join_path_tuple. cbn [rmap].
+  assert (Q : quote_path_segment [] = Ok []) by reflexivity. rewrite Q. cbn [rbind].
+  destruct (rmap quote_path_segment segs) as [qs|e|]; cbn [rbind]; try discriminate.
+  destruct qs as [|q qs]; cbn [join]; intros H; inversion H; reflexivity.
+Qed.
